@@ -117,7 +117,10 @@ fn check_deprecated(
         return;
     };
 
+    // one diagnostic per distinct message: a declaration can carry the same mark several times
+    let mut reported: Vec<String> = Vec::new();
     if let Some(deprecated_message) = get_deprecated_message(semantic_model, semantic_decl) {
+        reported.push(deprecated_message.clone());
         context.add_diagnostic(DiagnosticCode::Deprecated, range, deprecated_message, None);
     }
 
@@ -126,6 +129,10 @@ fn check_deprecated(
         for attribute_use in attribute_uses.iter() {
             if let Some(deprecated) = attribute_use.as_deprecated() {
                 let deprecated_message = deprecated.message.unwrap_or("deprecated").to_string();
+                if reported.contains(&deprecated_message) {
+                    continue;
+                }
+                reported.push(deprecated_message.clone());
                 context.add_diagnostic(DiagnosticCode::Deprecated, range, deprecated_message, None);
             }
         }
